@@ -6,7 +6,7 @@
    Abstract syntax (what the Accept grammar of RFC 9110 12.5.1 denotes):
      parameter map  a sequence of [n |-> name, v |-> value] with pairwise distinct names
      media type     [t, s, pm]            t, s are strings, "*" is the wildcard
-     media range    [t, s, pm, q]         q in thousandths (0..1000), QABSENT when no q parameter
+     media range    [t, s, pm, q]         q in millionths (0..QONE), QABSENT when no q parameter
                                           was given, QBAD when the q parameter is not a real in [0,1];
                                           t = NOSLASH denotes a list member without "type/subtype"   *)
 EXTENDS Integers, Sequences, FiniteSets
@@ -25,7 +25,11 @@ ValOf(pm, n) == pm[CHOOSE i \in DOMAIN pm : pm[i].n = n].v
 
 Malformed(r)     == r.t = NOSLASH \/ r.q = QBAD
 AnyMalformed(h)  == \E i \in DOMAIN h : Malformed(h[i])
-QOf(r)           == IF r.q = QABSENT THEN 1000 ELSE r.q
+(* Weights are compared EXACTLY as written: the grammar of RFC 9110 stops at three digits, falcon
+   documents that longer q values are accepted as they are, so 0.0004 is positive (not 0) and
+   0.5004 outranks 0.5001.  One unit = 0.000001. *)
+QONE             == 1000000
+QOf(r)           == IF r.q = QABSENT THEN QONE ELSE r.q
 
 (* ---- the five documented criteria, one operator each ---- *)
 MainMatch(r, m) == IF r.t = Wild \/ m.t = Wild THEN 0 ELSE IF r.t = m.t THEN 1 ELSE -1
